@@ -24,7 +24,7 @@ ODD = ['\u0130', '\u01c5', '\xdf', '\xc9', '\u03a9', '\u0131']   # I-dot, Dz-car
 # every character the driver may be sent: ASCII, Latin-1, and the few others the generators use.
 # U+03A3 (capital sigma) is left out on purpose: its lower-casing depends on the context.
 ALPHABET = [chr(i) for i in range(256)] + WS + ODD + ['\u0307', '\u01c6', '\u03c9', '\u01c4',
-                                                       '\ufb01', '\u03bf', '\u03c2', '\u039f']   # fi ligature, omicron, final sigma, Omicron
+                                                       '\ufb01', '\u03bf', '\u03c2', '\u039f', '\u0663']   # fi ligature, omicron, final sigma, Omicron, Arabic-Indic 3
 
 _key_re = re.compile(r'^[-:\w\s\.\+]$', re.UNICODE)
 _ws_re = re.compile(r'^\s$', re.UNICODE)
@@ -123,6 +123,23 @@ def build_tree(t, AND=None, OR=None, rng=None):
 
 def table_objs(table):
     return [le.LicenseSymbol(k, aliases=tuple(al), is_exception=ex) for k, al, ex in table]
+
+
+class Record(object):
+    """a symbol-like user object (what Licensing wraps in LicenseSymbolLike): key, aliases, is_exception and more"""
+
+    def __init__(self, key, aliases, is_exception):
+        self.key = key
+        self.aliases = tuple(aliases)
+        self.is_exception = is_exception
+        self.name = 'The ' + key
+
+    def __repr__(self):
+        return 'Record(%r)' % self.key
+
+
+def table_records(table):
+    return [Record(k, al, ex) for k, al, ex in table]
 
 
 def table_c(table):
